@@ -18,6 +18,7 @@ import (
 	"github.com/ipfs/go-graphsync"
 	"github.com/ipfs/go-graphsync/ipldutil"
 	gsmsg "github.com/ipfs/go-graphsync/message"
+	"github.com/ipfs/go-graphsync/panics"
 	"github.com/ipfs/go-graphsync/responsemanager/hooks"
 	"github.com/ipfs/go-graphsync/responsemanager/responseassembler"
 )
@@ -57,10 +58,22 @@ type ResponseSignals struct {
 
 // QueryExecutor is responsible for performing individual requests by executing their traversals
 type QueryExecutor struct {
-	ctx         context.Context
-	manager     Manager
-	blockHooks  BlockHooks
-	updateHooks UpdateHooks
+	ctx          context.Context
+	manager      Manager
+	blockHooks   BlockHooks
+	updateHooks  UpdateHooks
+	panicHandler panics.PanicHandler
+}
+
+// Option configures a QueryExecutor
+type Option func(*QueryExecutor)
+
+// PanicCallback sets a callback that is called with information about any panic
+// the QueryExecutor recovers from while executing a response
+func PanicCallback(callbackFn panics.CallBackFn) Option {
+	return func(qe *QueryExecutor) {
+		qe.panicHandler = panics.MakeHandler(callbackFn)
+	}
 }
 
 // New creates a new QueryExecutor
@@ -68,12 +81,17 @@ func New(ctx context.Context,
 	manager Manager,
 	blockHooks BlockHooks,
 	updateHooks UpdateHooks,
+	options ...Option,
 ) *QueryExecutor {
 	qm := &QueryExecutor{
-		blockHooks:  blockHooks,
-		updateHooks: updateHooks,
-		manager:     manager,
-		ctx:         ctx,
+		blockHooks:   blockHooks,
+		updateHooks:  updateHooks,
+		manager:      manager,
+		ctx:          ctx,
+		panicHandler: panics.MakeHandler(nil),
+	}
+	for _, option := range options {
+		option(qm)
 	}
 	return qm
 }
@@ -118,7 +136,7 @@ func (qe *QueryExecutor) executeQuery(
 	ctx context.Context, p peer.ID, rt ResponseTask) error {
 
 	// Execute the traversal operation, continue until we have reason to stop (error, pause, complete)
-	err := qe.runTraversal(ctx, p, rt)
+	err := qe.runTraversalRecovered(ctx, p, rt)
 
 	_, isPaused := err.(hooks.ErrPaused)
 	if isPaused {
@@ -179,6 +197,18 @@ func (qe *QueryExecutor) checkForUpdates(
 			return nil
 		}
 	}
+}
+
+// runTraversalRecovered runs the traversal for a response and converts a panic raised while
+// doing so (block loads, hooks) into an error for that response only, so that a single
+// response cannot take down the task worker and with it the process
+func (qe *QueryExecutor) runTraversalRecovered(ctx context.Context, p peer.ID, taskData ResponseTask) (err error) {
+	defer func() {
+		if rerr := qe.panicHandler(recover()); rerr != nil {
+			err = rerr
+		}
+	}()
+	return qe.runTraversal(ctx, p, taskData)
 }
 
 func (qe *QueryExecutor) runTraversal(ctx context.Context, p peer.ID, taskData ResponseTask) error {
